@@ -73,13 +73,23 @@ Definition ev_body (e : sevent) : Z :=
   match e with EHeaders _ _ => 0 | EData n _ => n end.
 Definition body_bytes (evs : list sevent) : Z := fold_right (fun e acc => ev_body e + acc) 0 evs.
 
-(* the content-length declared by the message: the one of the first header block delivered *)
-Definition declared (is_client : bool) (evs : list sevent) : option Z :=
-  match filter (fun e => match e with EHeaders _ _ => true | _ => false end) evs with
-  | EHeaders hs _ :: _ =>
-      match validate (if is_client then KResponse else KRequest) hs with
-      | VOk ecl => ecl
-      | _ => None
-      end
-  | _ => None
+Definition b_content_length : bytes := [99; 111; 110; 116; 101; 110; 116; 45; 108; 101; 110; 103; 116; 104].  (* "content-length" *)
+
+(* header list hs declares content-length n: some content-length header spells n *)
+Definition declares (hs : list header) (n : Z) : Prop :=
+  exists v, In (b_content_length, v) hs /\ py_int_bytes v = VOk n.
+
+(* the header block that opened the message, as delivered to the application *)
+Fixpoint first_headers (evs : list sevent) : option (list header) :=
+  match evs with
+  | [] => None
+  | EHeaders hs _ :: _ => Some hs
+  | EData _ _ :: t => first_headers t
   end.
+
+(* "when a stream ends, a declared content-length equals the number of body bytes delivered":
+   for every event e that tells the application the stream ended, every content-length declared by the
+   message's header block equals the body bytes delivered up to and including e. *)
+Definition content_length_respected (evs : list sevent) : Prop :=
+  forall pre e post, evs = pre ++ e :: post -> ev_ended e = true ->
+  forall hs n, first_headers (pre ++ [e]) = Some hs -> declares hs n -> body_bytes (pre ++ [e]) = n.
